@@ -15,10 +15,17 @@ the first `ReadByte`, i.e. on the first `ReadNext`/`SkipNext`), so a constructed
 (`constructed_cap_pos`) and `fill`'s panic branch is unreachable; `cap0_reader_works_fixed` is the
 regression theorem on the input that used to panic.
 
+Both constructors are covered: `NewReaderBuf` (`aligned = false`) and `NewAlignedReaderBuf` (`aligned = true`,
+used by `DirectIOFactory.CreateNewReader` since /repo commit 9c40b59; it never takes the "large read, empty
+buffer" shortcut).  The theorems quantify over `aligned : Bool` (`Rd.make aligned cap u`), the state-based ones
+(`readByte_refines`, `bufReadNext_eq_readNextS`, …) hold in every state whatever the flag is, and
+`aligned_reads_only_into_own_buffer` states what the flag is for.
+
 Property theorems only; lemmas are in SST/Proofs/BufReader*.lean.
 -/
 import SST.Proofs.BufReaderRun
 import SST.Proofs.BufReaderRoundtrip
+import SST.Proofs.BufReaderAligned
 namespace SST.C04Buf
 open SST Generated SST.Buf
 
@@ -29,22 +36,22 @@ every result (byte, bytes, EOF iff nothing is left, ErrUnexpectedEOF iff 0 < ava
 `Count()` equals the one computed on the raw byte stream — for EVERY requested capacity (0 included: the
 constructor then uses 16 bytes), every schedule of short and empty reads without 100 consecutive empty ones,
 every data.  Independent of capacity and schedule: the right hand side mentions neither. -/
-theorem calls_refine (cap : Nat) (data : Bytes) (sched : List Nat) (hns : NoStall sched)
+theorem calls_refine (aligned : Bool) (cap : Nat) (data : Bytes) (sched : List Nat) (hns : NoStall sched)
     (calls : List Call) :
-    runCalls { rd := Rd.new cap { rem := data, sched := sched, eofData := false }, count := 0 } calls
+    runCalls { rd := Rd.make aligned cap { rem := data, sched := sched, eofData := false }, count := 0 } calls
       = specCalls data 0 calls :=
   (calls_refine_aux (effCap cap) false calls _ data 0
-    (rep_new cap { rem := data, sched := sched, eofData := false } hns)).2 rfl
+    (rep_make aligned cap { rem := data, sched := sched, eofData := false } hns)).2 rfl
 
 /-- The same for an underlying reader that returns its last bytes TOGETHER with `io.EOF` (legal for an
 io.Reader): all results are still those of the raw stream; only `Count()` is not claimed (see
 `eofData_not_counted`). -/
-theorem calls_refine_eofData (cap : Nat) (data : Bytes) (sched : List Nat) (hns : NoStall sched)
+theorem calls_refine_eofData (aligned : Bool) (cap : Nat) (data : Bytes) (sched : List Nat) (hns : NoStall sched)
     (ed : Bool) (calls : List Call) :
-    (runCalls { rd := Rd.new cap { rem := data, sched := sched, eofData := ed }, count := 0 } calls).map
+    (runCalls { rd := Rd.make aligned cap { rem := data, sched := sched, eofData := ed }, count := 0 } calls).map
         CallRes.erase = (specCalls data 0 calls).map CallRes.erase :=
   (calls_refine_aux (effCap cap) ed calls _ data 0
-    (rep_new cap { rem := data, sched := sched, eofData := ed } hns)).1
+    (rep_make aligned cap { rem := data, sched := sched, eofData := ed } hns)).1
 
 /-- One `ReadByte` in ANY state of the stack that stands for the raw stream `s` with `k` bytes consumed
 (`CRd.Rep`: capacity ≥ 1, the schedule never stalls, a sticky error is the EOF of an exhausted reader): the next
@@ -74,18 +81,19 @@ theorem readAll_refines (cap : Nat) (ed : Bool) (c : CRd) (s : Bytes) (k : Nat) 
 /-! ## 2. the file reader over the stack = the pure-stream model -/
 
 /-- `Open` over the stack = `parseFileHeader`; afterwards the reader stands behind the 8 header bytes. -/
-theorem bufOpen_eq_parseFileHeader (cap : Nat) (file : Bytes) (sched : List Nat)
+theorem bufOpen_eq_parseFileHeader (aligned : Bool) (cap : Nat) (file : Bytes) (sched : List Nat)
     (hns : NoStall sched) (ed : Bool) :
-    ∃ fr', (FileRd.new file cap { rem := file, sched := sched, eofData := ed }).open
+    ∃ fr', (FileRd.new file cap { rem := file, sched := sched, eofData := ed } aligned).open
         = (liftE (parseFileHeader file), fr') ∧
       (∀ v ct, parseFileHeader file = .ok (v, ct) → fr'.Rep (effCap cap) ed file v fileHeaderSize) :=
-  open_spec cap file { rem := file, sched := sched, eofData := ed } hns rfl
+  open_spec cap file { rem := file, sched := sched, eofData := ed } hns rfl aligned
 
 /-- `ReadNext` (file version 4) through buffered reader, counting reader, checksum byte reader, ReadUvarint,
 ReadFull and ReadAll returns exactly what `readNextS` returns on the raw stream — same record (nil ≠ empty), same
 error class — in every state that stands at byte `pos` of the file: every effective capacity (≥ 1 by construction, see `bufOpen_eq_parseFileHeader`), every non-stalling
 schedule, every file content (valid, damaged, cut), with or without data-with-EOF.  After a success the reader
-stands behind the record.  Hence C04's and C12's reader theorems hold for the real stack. -/
+stands behind the record (for an aligned reader as well: the invariant does not mention the flag).  Hence C04's
+and C12's reader theorems hold for the real stack, buffered and direct-I/O. -/
 theorem bufReadNext_eq_readNextS (cap : Nat) (ed : Bool) (cmp : Compression) (grow : Nat → Nat)
     (hg : ∀ x, x < grow x) (file : Bytes) (v : Nat) (fr : FileRd) (pos : Nat)
     (hrep : fr.Rep cap ed file v pos) :
@@ -116,27 +124,29 @@ theorem bufReadNext_legacy (cap : Nat) (ed : Bool) (cmp : Compression) (grow : N
 /-- Whole programs: open a file of version 2, 3 or 4 with ANY requested buffer capacity over ANY non-stalling read
 schedule and run ANY program of ReadNext / SkipNext up to its first error: the outputs are exactly those of the
 pure-stream model (`streamRun`, which for version 4 is `readNextS` / `skipNextS`). -/
-theorem bufFile_eq_stream (cap : Nat) (file : Bytes) (sched : List Nat) (hns : NoStall sched)
+theorem bufFile_eq_stream (aligned : Bool) (cap : Nat) (file : Bytes) (sched : List Nat) (hns : NoStall sched)
     (cmp : Compression) (grow : Nat → Nat) (hg : ∀ x, x < grow x) (maxOff : Nat) (hmax : maxOff < 2 ^ 63)
     (v ct : Nat)
     (hp : parseFileHeader file = .ok (v, ct)) (hv : v = 2 ∨ v = 3 ∨ v = 4) (ops : List ROp)
     (hfit : skipsFit v cmp maxOff file fileHeaderSize ops = true) :
-    ∃ fr, (FileRd.new file cap { rem := file, sched := sched, eofData := false }).open = (.ok (v, ct), fr) ∧
+    ∃ fr, (FileRd.new file cap { rem := file, sched := sched, eofData := false } aligned).open
+        = (.ok (v, ct), fr) ∧
       bufRun cmp grow maxOff fr ops = streamRun v cmp file fileHeaderSize ops := by
-  obtain ⟨fr, h1, h2⟩ := open_spec cap file { rem := file, sched := sched, eofData := false } hns rfl
+  obtain ⟨fr, h1, h2⟩ := open_spec cap file { rem := file, sched := sched, eofData := false } hns rfl aligned
   rw [hp] at h1
   exact ⟨fr, h1, bufRun_eq_streamRun (effCap cap) cmp grow hg maxOff hmax file v hv ops fr _ (h2 v ct hp) hfit⟩
 
 /-- C04's sequential round trip for the REAL reader stack: any records (nil, empty, any bytes, any lawful
-compressor) written back to back after the file header, read through the buffered stack with any requested capacity
+compressor) written back to back after the file header, read through the buffered stack (either constructor) with
+any requested capacity
 over any non-stalling schedule of short and empty reads: `Open` succeeds and `ReadNext` yields exactly the
 records, nil distinguished from empty, then end-of-file. -/
-theorem buffered_seq_roundtrip (cap : Nat) (sched : List Nat) (hns : NoStall sched)
+theorem buffered_seq_roundtrip (aligned : Bool) (cap : Nat) (sched : List Nat) (hns : NoStall sched)
     (c : Compression) (ct : Nat) (hct : ct ≤ maxCompression) (rs : List GoBytes)
     (hl : LawfulC c) (hf : ∀ r ∈ rs, FitsRec c r) (grow : Nat → Nat) (hg : ∀ x, x < grow x)
     (maxOff : Nat) (hmax : maxOff < 2 ^ 63) :
     ∃ fr, (FileRd.new (fileHeader currentVersion ct ++ encAll c rs) cap
-          { rem := fileHeader currentVersion ct ++ encAll c rs, sched := sched, eofData := false }).open
+          { rem := fileHeader currentVersion ct ++ encAll c rs, sched := sched, eofData := false } aligned).open
         = (.ok (currentVersion, ct), fr) ∧
       bufRun c grow maxOff fr (List.replicate rs.length .read ++ [.read])
         = rs.map .record ++ [.fail (.e .eof)] := by
@@ -146,11 +156,34 @@ theorem buffered_seq_roundtrip (cap : Nat) (sched : List Nat) (hns : NoStall sch
     (List.replicate rs.length .read ++ [.read])
     (by intro o ho; simp only [List.mem_append, List.mem_replicate, List.mem_singleton] at ho
         rcases ho with ⟨_, h⟩ | h <;> exact h) fileHeaderSize
-  obtain ⟨fr, h1, h2⟩ := bufFile_eq_stream cap _ sched hns c grow hg maxOff hmax currentVersion ct hp
+  obtain ⟨fr, h1, h2⟩ := bufFile_eq_stream aligned cap _ sched hns c grow hg maxOff hmax currentVersion ct hp
     (Or.inr (Or.inr rfl)) _ hfit
   refine ⟨fr, h1, ?_⟩
   rw [h2]
   exact streamRun_reads c hl rs (fileHeader currentVersion ct) hf
+
+/-! ## 2b. what the aligned reader is for -/
+
+/-- The point of `NewAlignedReaderBuf` (/repo commit 9c40b59, direct I/O): whatever `Read(p)` / `ReadByte` calls
+are made on it (`io.ReadFull`, `io.ReadAll`, `ReadUvarint` and the wrappers are nothing else), with whatever
+`len p`, EVERY `Read` call the underlying reader sees asks for at most the reader's own buffer length — the
+aligned reader only ever hands (a suffix of) its own block-aligned buffer down, never the caller's slice.  (The
+underlying reader of the model logs the `len p` of every call it receives.) -/
+theorem aligned_reads_only_into_own_buffer (cap : Nat) (u : Under) (hu : u.reqs = []) (ops : List RdOp) :
+    ∀ r ∈ ((Rd.newAligned cap u).run ops).under.reqs, r ≤ effCap cap := by
+  have h0 : (Rd.newAligned cap u).OwnBuf := by intro r hr; simp [Rd.newAligned, Rd.reset, hu] at hr
+  obtain ⟨h1, h2⟩ := run_ownBuf ops (Rd.newAligned cap u) rfl h0
+  intro r hr
+  have := h1 r hr
+  rwa [h2] at this
+
+/-- the contrast: the unaligned reader passes the caller's length straight through (a 10-byte read on a 4-byte
+buffer asks the file for 10 bytes — into the caller's unaligned slice, EINVAL under O_DIRECT), the aligned one
+asks for its 4-byte buffer -/
+example : ((Rd.new 4 { rem := [1, 2, 3, 4, 5, 6, 7, 8, 9, 10, 11], sched := [], eofData := false }).read 10).st.under.reqs
+      = [10] ∧
+    ((Rd.newAligned 4 { rem := [1, 2, 3, 4, 5, 6, 7, 8, 9, 10, 11], sched := [], eofData := false }).read 10).st.under.reqs
+      = [4] := by decide
 
 /-! ## 3. no progress -/
 
@@ -159,7 +192,8 @@ reader) reports `io.ErrNoProgress` — an error, never data; nothing of the stre
 entries are used up and the sticky error is cleared, so the next call tries again. -/
 theorem no_progress_reported (b : Rd) (hp : b.pend = []) (he : b.err = none) (hcap : 0 < b.cap)
     (hz : 100 ≤ zeroRun b.under.sched) :
-    b.readByte = (.error .noProgress, { b with under := { b.under with sched := b.under.sched.drop 100 } }) :=
+    ∃ b', b.readByte = (.error .noProgress, b') ∧ b'.pend = [] ∧ b'.err = none ∧ b'.cap = b.cap ∧
+      b'.under.rem = b.under.rem ∧ b'.under.sched = b.under.sched.drop 100 ∧ b'.stream = b.stream :=
   readByte_no_progress b hp he hcap hz
 
 /-! ## 4. quirks -/
@@ -196,9 +230,10 @@ example : runCalls { rd := Rd.new 2 { rem := [1, 2, 3, 4], sched := [1, 0, 2], e
        .byte (.error (.e .eof)) 4] := by decide
 
 /-- the state hypothesis `CRd.Rep` holds of every freshly constructed stack, whatever capacity was requested -/
-example (cap : Nat) (data : Bytes) (sched : List Nat) (hns : NoStall sched) (ed : Bool) :
-    ({ rd := Rd.new cap { rem := data, sched := sched, eofData := ed }, count := 0 } : CRd).Rep (effCap cap) ed data 0 :=
-  rep_new cap { rem := data, sched := sched, eofData := ed } hns
+example (aligned : Bool) (cap : Nat) (data : Bytes) (sched : List Nat) (hns : NoStall sched) (ed : Bool) :
+    ({ rd := Rd.make aligned cap { rem := data, sched := sched, eofData := ed }, count := 0 } : CRd).Rep
+      (effCap cap) ed data 0 :=
+  rep_make aligned cap { rem := data, sched := sched, eofData := ed } hns
 
 /-- the count quirk, concretely: three bytes delivered with EOF through a 2-byte buffer, `Count()` stays 0 -/
 example : (({ rd := Rd.new 2 { rem := [1, 2, 3], sched := [], eofData := true }, count := 0 } : CRd).readFull 3).data
@@ -222,6 +257,12 @@ example : skipsFit 4 none (2 ^ 63 - 1) demoFile 8 [.read, .skip, .read, .read] =
 /-- … and its conclusion, concretely: capacity 5, schedule 1,0,0,3,2 -/
 example : bufRun none (· + 1) (2 ^ 63 - 1)
       ((FileRd.new demoFile 5 { rem := demoFile, sched := [1, 0, 0, 3, 2], eofData := false }).open).2
+      [.read, .skip, .read, .read]
+    = [.record (some [7, 8]), .skipped, .record (some []), .fail (.e .eof)] := by decide +kernel
+
+/-- the same through an ALIGNED reader with a 1-byte buffer (every record is larger than the buffer) -/
+example : bufRun none (· + 1) (2 ^ 63 - 1)
+      ((FileRd.new demoFile 1 { rem := demoFile, sched := [1, 0, 0, 3, 2], eofData := false } true).open).2
       [.read, .skip, .read, .read]
     = [.record (some [7, 8]), .skipped, .record (some []), .fail (.e .eof)] := by decide +kernel
 
